@@ -245,6 +245,10 @@ class LoopMixin:
             rec_vars = {v: sname for sname, (_, v) in recorded.items()}
             invariant = self.invariant_state(st, body, frame, state, idx, lo, elem, carried, rec_vars)
             rec.invariant = dict(invariant)
+            for n in state.pop("constant_series", []):
+                sr = state["series"][n]
+                sr.elem_k = sr.init[-1]     # every element is the first one; re-checked when the series is closed
+                sr.constant = True
             for name in carried:
                 cur = frame.lookup(name)
                 if cur is None:
@@ -292,6 +296,13 @@ class LoopMixin:
             # close series
             for name, s in state["series"].items():
                 self.close_series(s, frame, st)
+                if getattr(s, "constant", False):
+                    try:
+                        okc = len(s.per_iter) == 1 and key_equiv(val_key(s.per_iter[0]), val_key(s.init[-1]))
+                    except Unmodelled:
+                        okc = False
+                    if not okc:
+                        raise Unmodelled("list %s repeats its first value on one path and not on another at %s" % (name, frame.loc(st)))
             for sname, (stx, vname) in recorded.items():
                 self.series_pop(state["series"][sname], [Num(-1)], frame, stx)
                 self._set_var(frame, vname, Opaque("loop-carried %s" % vname))
@@ -329,6 +340,23 @@ class LoopMixin:
             self.release_bound()
 
     def invariant_state(self, st, body, frame, state, idx, lo, elem, carried, rec_vars):
+        """Loop-carried variables that every path through the body re-assigns to the value they already have, whatever the
+        rest of the state is.  First all candidates are tried together at their initial values (cheap filter), then each
+        survivor alone with everything else symbolic: `p = fit(x)` is not constant just because p0 == fit(x0)."""
+        first = self._invariant_trial(st, body, frame, state, idx, lo, elem, carried, rec_vars)
+        if not state.get("had_candidates"):
+            return first
+        out = {}
+        for name in first:
+            r = self._invariant_trial(st, body, frame, state, idx, lo, elem, carried, rec_vars, only={name})
+            if name in r:
+                out[name] = r[name]
+        # lists that repeat their first value: judged with the confirmed constants in place and everything else symbolic
+        state.pop("constant_series", None)
+        self._invariant_trial(st, body, frame, state, idx, lo, elem, carried, rec_vars, only=set(out))
+        return out
+
+    def _invariant_trial(self, st, body, frame, state, idx, lo, elem, carried, rec_vars, only=None):
         """Loop-carried variables that the body re-assigns to the value they already have (a unified driver that treats a
         constant as formal state: `T = next_T(...)` with next_T returning the constant).  Found by a trial execution of the
         body that records nothing; every real path re-checks it.  {name: key of the value}"""
@@ -337,11 +365,24 @@ class LoopMixin:
             cur = frame.lookup(name)
             if name in rec_vars or cur is None or not isinstance(cur, (Num, ObjV, TupV)):
                 continue
+            state["had_candidates"] = True
+            if only is not None and name not in only:
+                continue
             try:
                 cands[name] = val_key(cur)
             except Unmodelled:
                 continue
-        if not cands or getattr(self.ctx, "dry", None) is not None:
+        # a list that starts with one value and gets one value per step may turn out to repeat that value (constant temperature
+        # written as T.append(next_T(...)) by a driver shared with a model in which T evolves): worth a trial only if some
+        # appended value is produced by a call of a function VALUE (a callback), never for the plain code of the clean tree
+        series_cands = [n for n, sr in state["series"].items() if len(sr.init) >= 1 and not sr.appended]
+        has_callback = any(isinstance(x, ast.Call) and isinstance(x.func, (ast.Name, ast.Attribute)) and
+                           isinstance(frame.lookup(x.func.id) if isinstance(x.func, ast.Name) else None, FuncV)
+                           for stx in body for x in ast.walk(stx)) or \
+            any(isinstance(x, ast.Call) and isinstance(x.func, ast.Attribute) and isinstance(x.func.value, ast.Name)
+                and isinstance(frame.lookup(x.func.value.id), ObjV) and getattr(frame.lookup(x.func.value.id).cls, "is_namedtuple", False)
+                for stx in body for x in ast.walk(stx))
+        if (not cands and not (series_cands and has_callback)) or getattr(self.ctx, "dry", None) is not None:
             return {}
         ctx = self.ctx
         snap_env = dict(frame.env)
@@ -350,12 +391,24 @@ class LoopMixin:
         ser = {n: (len(s.appended), s.elem_k, list(getattr(s, "append_nodes", []))) for n, s in state["series"].items()}
         placeholders = {}
         result = None
-        script = []
+        # every path through the body is tried (a variable that changes on any of them is not constant); paths that leave the loop
+        # by raising do not count
+        pending_scripts = [[]]
+        results = []          # per completing path: ({name: value}, [constant series])
+        runs = 0
+        complete = True
         try:
-            for attempt in range(12):
+            while pending_scripts:
+                script = pending_scripts.pop()
+                runs += 1
+                if runs > 48:
+                    complete = False
+                    break
                 ctx.dry = {"script": list(script), "pos": 0}
                 frame.env.clear()
                 frame.env.update(snap_env)
+                ctx.facts.clear()
+                ctx.facts.update(snap[3])
                 for n, s in state["series"].items():
                     del s.appended[ser[n][0]:]
                     s.elem_k = ser[n][1]
@@ -377,20 +430,42 @@ class LoopMixin:
                 ctx.loop_stack.append(dict(state, dry=True))
                 try:
                     self.exec_block(body, frame)
-                    result = {n: frame.lookup(n) for n in cands}
-                    break
+                    res = {n: frame.lookup(n) for n in cands}
+                    const_series = []
+                    for n, sr in state["series"].items():
+                        new = sr.appended[ser[n][0]:]
+                        if len(sr.init) >= 1 and ser[n][0] == 0 and len(new) == 1:
+                            try:
+                                kn = val_key(new[0])
+                                same = key_equiv(kn, val_key(sr.init[-1])) or (sr.elem_k is not None and key_equiv(kn, val_key(sr.elem_k)))
+                            except Unmodelled:
+                                same = False
+                            if same:
+                                const_series.append(n)
+                    results.append((res, const_series))
                 except RaiseSignal:
-                    # this trial path leaves the loop: flip the last scripted decision and try another path
-                    script = list(ctx.dry["script"][:ctx.dry["pos"]])
-                    while script and script[-1] is False:
-                        script.pop()
-                    if not script:
-                        break
-                    script[-1] = False
+                    pass    # this path leaves the loop
                 except (ReturnSignal, Unmodelled, BreakSignal):
+                    complete = False
                     break
                 finally:
                     ctx.loop_stack.pop()
+                taken = list(ctx.dry["script"][:ctx.dry["pos"]])
+                for j in range(len(script), len(taken)):
+                    if taken[j] is True:
+                        pending_scripts.append(taken[:j] + [False])
+            if complete and results:
+                result = {}
+                for n, k in cands.items():
+                    try:
+                        if all(key_equiv(val_key(r[n]), k) for r, _ in results):
+                            result[n] = k
+                    except Unmodelled:
+                        pass
+                cs = set(results[0][1])
+                for _, c2 in results[1:]:
+                    cs &= set(c2)
+                state["constant_series"] = sorted(cs)
         finally:
             ctx.dry = None
             frame.env.clear()
@@ -410,16 +485,7 @@ class LoopMixin:
                 s.elem_k = ser[n][1]
                 if hasattr(s, "append_nodes"):
                     s.append_nodes = ser[n][2]
-        if result is None:
-            return {}
-        out = {}
-        for n, k in cands.items():
-            try:
-                if key_equiv(val_key(result[n]), k):
-                    out[n] = k
-            except Unmodelled:
-                pass
-        return out
+        return result or {}
 
     def _set_var(self, frame, name, v):
         f = frame
